@@ -12,7 +12,7 @@ Producer: harness/viz_common.py.
   portray A R | portray A -          the portrayal returns dict R (or a fresh empty dict) for agent A
   place A X Y | move A X Y | remove A | ghost A
   collect | collectd COLOR SIZE MARKER ZORDER
-  draw | altair | heap
+  draw | altair | heap | drawc | altairc   (…c: through the solara component)
   layer v…                           property layer values, x-major (W*H ints)
   drawlayer cmap|color|cmapauto|colorauto
 
@@ -222,10 +222,20 @@ def stepLine (st : St) (ws : List String) : St × String :=
       match collectAgentData { color := c, size := s, marker := m, zorder := z } st.heap st.portrayal (spaceAgents sp) with
       | none => (st, "err Attribute")
       | some es => (st, fmtCollect es)
+  | ["drawc"] =>   -- through the solara component SpaceMatplotlib: the same draw_space call
+    withSpace st fun sp =>
+      match drawSpace sp st.heap st.portrayal with
+      | .ok gs => (st, fmtDraw gs)
+      | .error e => (st, fmtErr e)
   | ["draw"] =>
     withSpace st fun sp =>
       match drawSpace sp st.heap st.portrayal with
       | .ok gs => (st, fmtDraw gs)
+      | .error e => (st, fmtErr e)
+  | ["altairc"] =>   -- through the solara component SpaceAltair: the same _draw_grid call
+    withSpace st fun sp =>
+      match altairRows sp st.heap st.portrayal with
+      | .ok rows => (st, fmtAltair rows)
       | .error e => (st, fmtErr e)
   | ["altair"] =>
     withSpace st fun sp =>
